@@ -123,7 +123,13 @@ def run(ctx):
         pkg = gen_xml.Package()
         pkg.styles = styles_part()
         pkg.numbering = gen_xml.XGen(rng).numbering_part()
-        paras = [p for p, _, _ in seq]
+        paras = []
+        for p_, _, _ in seq:
+            # (an EMPTY paragraph - no runs, or runs without text - yields no block and does not come between its neighbours)
+            if rng.random() < 0.2:
+                paras.append(rng.choice([X("w:p"), X("w:p", {}, [X("w:pPr", {}, [X("w:pStyle", {"w:val": "Normal"})])]),
+                                         X("w:p", {}, [X("w:r", {}, [X("w:t")])]), X("w:p", {}, [X("w:r", {}, [X("w:rPr", {}, [X("w:b")])])])]))
+            paras.append(p_)
         if container == "body":
             pkg.body = paras
         elif container == "cell":
